@@ -81,3 +81,15 @@ class Keeper:
         self.rec.count("independence_reobservations", self.rechecks)
         self.rec.ops += self.rechecks
         self.holds = self.rechecks = 0
+
+
+def receive_buffer(data) -> bytearray:
+    """a mutable receive buffer holding `data` (the caller re-uses it after the decoder returned: see reuse_buffer)"""
+    return bytearray(data)
+
+
+def reuse_buffer(buf: bytearray):
+    """the caller re-uses its receive buffer: every octet is overwritten.  A decoded object is a value; one that kept a
+    view of the caller's buffer (memoryview / un-copied slice) changes now and is caught by the comparisons that follow."""
+    for i in range(len(buf)):
+        buf[i] ^= 0xFF
